@@ -37,8 +37,11 @@ PayFull == {PSub(w, ic) : w \in Needles, ic \in BOOLEAN}
            \cup {PRe("contains", w, <<>>, ic) : w \in {<<6, Dot, 15>>, <<106, Dot, Dot, 0>>}, ic \in BOOLEAN}
            \cup {PRe("any", <<>>, <<>>, ic) : ic \in BOOLEAN} \cup {PRe("nostar", <<6>>, <<>>, ic) : ic \in BOOLEAN}
            \cup {PRe("alt", w, w2, ic) : w \in {<<106, 15, 15>>, <<2, 1, 18>>}, w2 \in {<<6, 15>>, <<102, 101>>}, ic \in BOOLEAN}
+           \cup {PRe("ncalt", w, w2, ic) : w \in {<<106, 15, 15>>, <<2, 1, 18>>}, w2 \in {<<102, 101>>}, ic \in BOOLEAN}
+           \cup {PRe(cls, w, <<>>, ic) : cls \in {"flagged", "named"}, w \in {<<106, 15, 15>>, <<2, 1, 18>>}, ic \in BOOLEAN}
 PaySmall == { PSub(<<6, 15, 15>>, FALSE), PSub(<<6, 15, 15>>, TRUE), PSub(<<102, 101, 118>>, TRUE),
-              PRe("prefix", <<6, 15>>, <<>>, FALSE), PRe("alt", <<106, 15, 15>>, <<102, 101>>, TRUE) }
+              PRe("prefix", <<6, 15>>, <<>>, FALSE), PRe("alt", <<106, 15, 15>>, <<102, 101>>, TRUE),
+              PRe("ncalt", <<106, 15, 15>>, <<102, 101>>, TRUE) }
 
 A == CHOOSE x \in Chars : \A y \in Chars : x <= y
 B == CHOOSE x \in Chars \ {A} : \A y \in Chars \ {A} : x <= y
